@@ -207,7 +207,9 @@ class SshServer:
         mut = cfg.get('mutate')
         if mut is not None:
             items = mut(self.k, kind, self.out_idx, data)
-        tainted = perturbation or items != [data]
+        # re-segmenting the same bytes is a legal delivery, not tampering
+        same_bytes = all(isinstance(it, (bytes, bytearray)) for it in items) and b''.join(items) == bytes(data)
+        tainted = perturbation or not same_bytes
         self.out_idx += 1
         seg = cfg.get('segment')
         for it in items:
@@ -282,6 +284,11 @@ class SshServer:
                 self.emit(sock, 'prebanner', b(pl) + eol)
             self.emit(sock, 'banner', b(cfg['banner']) + eol)
         ssh1 = cfg.get('ssh1')
+        if cfg.get('wrong_version_always'):
+            self.emit(sock, 'text', cfg.get('wrong_version_text') or b'Protocol major versions differ.')
+            sock.push(EOF)
+            self.done = True
+            return
         if ssh1 is not None:
             if line.startswith(b'SSH-2') and cfg.get('wrong_version_text') is not None:
                 self.emit(sock, 'text', cfg['wrong_version_text'])
